@@ -1,4 +1,4 @@
-import RxVerif.Theorems.C13RefReplayHooks
+import RxVerif.Theorems.C13RefReplayFam
 /-
 C13-REF, replay: `Subscription::unsubscribe` of a test user (replay_subject.rs:52-58 → forwarder teardown →
 subject.rs:74-83 → `on_unsubscribe` hook).
@@ -6,8 +6,45 @@ subject.rs:74-83 → `on_unsubscribe` hook).
 namespace Rx.CRef
 open Rx.Sim Rx.SubjM Rx.Ref Rx.RefR
 
-/-- a change of the world confined to subscription `o` and the inner Subject's map cell, at the level of the
-    whole relation -/
+/-- a change of the world confined to subscription `o` and the inner Subject's map cell, on the users' side -/
+theorem URr.patchUser {L cobs cacs pend unst Hd cg sb cn w} {s : SubjM.State}
+    (hur : URr L cobs cacs pend unst Hd cg sb cn w s)
+    {o : Nat} (ho : o < L.roots.length) (w' : World) (r' : ObsSt) (O' : List (Nat × Nat))
+    (hstatus : w'.status = w.status) (hheld : w'.held = w.held) (hslots : w'.slots = w.slots)
+    (hobsvs : w'.obsvs = w.obsvs) (hobsLen : w'.obs.length = w.obs.length)
+    (hclen : w'.cells.length = w.cells.length)
+    (hcell2 : w'.cells[2]? = some (encMap (mapL L O')))
+    (hcells : ∀ i, i ≠ 2 → i ≠ rootAt L.acs o → w'.cells[i]? = w.cells[i]?)
+    (hac : unst ≠ some o → w'.cells[rootAt L.acs o]? = some (.bool r'.armed))
+    (hunarmed : unst = some o → r'.armed = false)
+    (hulen : w'.users.length = w.users.length)
+    (husers : ∀ i, i ≠ o → w'.users[i]? = w.users[i]?)
+    (huser : ∃ rd, w'.users[o]? = some ⟨rootAt L.roots o, noReact, rd, r'.hook⟩ ∧ (pend ≠ some o → rd = true))
+    (hothers : ∀ i, i ≠ rootAt L.roots o → i ≠ rootAt L.fwds o → w'.obs[i]? = w.obs[i]?)
+    (hlogs : ∀ u, u ≠ o → logOf w' u = logOf w u)
+    (hroot : w'.obs[rootAt L.roots o]? = some (rootOfL (rootAt L.sbs o) o r'))
+    (hfwd : w'.obs[rootAt L.fwds o]? = some (fwdOfL (rootAt L.roots o) r'))
+    (hlog : logOf w' o = r'.log) (hseen : r'.seen = true) (hdead : r'.hook = false → r'.alive = false)
+    (hkeys : ∀ p ∈ O', p.1 ≤ s.serial) (hreg : ∀ p ∈ O', p.2 < L.roots.length) :
+    URr L cobs cacs pend unst Hd cg sb cn w' { s with observers := O', obs := upd s.obs o r' } := by
+  obtain ⟨g, U, X⟩ := hur
+  have g' : Glob (L.roots ++ L.fwds) cobs w' :=
+    ⟨hstatus ▸ g.status, hobsLen ▸ g.nObs, fun r hr => hobsLen ▸ g.rootsLt r hr,
+     fun c hc => hobsLen ▸ g.cobsLt c hc, g.nodup⟩
+  have U' := U.patch g ho w' r' O' hclen hcell2 hcells hac hunarmed hulen husers huser hothers hlogs hroot hfwd hlog
+    hseen hdead hkeys hreg
+  have hac0 := U.ac_zero_or o
+  refine ⟨g', U', ?_⟩
+  exact
+    { X with
+      held := hheld ▸ X.held, slot0 := hslots ▸ X.slot0, slot1 := hslots ▸ X.slot1, slot2 := hslots ▸ X.slot2
+      slot3 := hslots ▸ X.slot3, obsvS := hobsvs ▸ X.obsvS
+      cellG := by rw [hcells 7 (by omega) (by omega)]; exact X.cellG
+      cellB := by rw [hcells 8 (by omega) (by omega)]; exact X.cellB
+      cellN := by rw [hcells 9 (by omega) (by omega)]; exact X.cellN
+      caGe := fun c hc => hclen ▸ X.caGe c hc }
+
+/-- the same at the level of the whole relation -/
 theorem RelRp.patchUser {L cobs cacs armed pend unst Hd w st} (h : RelRp L cobs cacs armed pend unst Hd w st)
     {o : Nat} (ho : o < L.roots.length) (w' : World) (r' : ObsSt) (O' : List (Nat × Nat))
     (hstatus : w'.status = w.status) (hheld : w'.held = w.held) (hslots : w'.slots = w.slots)
@@ -29,33 +66,29 @@ theorem RelRp.patchUser {L cobs cacs armed pend unst Hd w st} (h : RelRp L cobs 
     (hkeys : ∀ p ∈ O', p.1 ≤ st.sub.serial) (hreg : ∀ p ∈ O', p.2 < L.roots.length) :
     RelRp L cobs cacs armed pend unst Hd w'
       { st with sub := { st.sub with observers := O', obs := upd st.sub.obs o r' } } := by
+  have hur' := h.ur.patchUser ho w' r' O' hstatus hheld hslots hobsvs hobsLen hclen hcell2 hcells hac hunarmed hulen
+    husers huser hothers hlogs hroot hfwd hlog hseen hdead hkeys hreg
   obtain ⟨g, U, X⟩ := h.ur
-  have g' : Glob (L.roots ++ L.fwds) cobs w' :=
-    ⟨hstatus ▸ g.status, hobsLen ▸ g.nObs, fun r hr => hobsLen ▸ g.rootsLt r hr,
-     fun c hc => hobsLen ▸ g.cobsLt c hc, g.nodup⟩
-  have U' := U.patch g ho w' r' O' hclen hcell2 hcells hac hunarmed hulen husers huser hothers hlogs hroot hfwd hlog
-    hseen hdead hkeys hreg
   have hlf : o < L.fwds.length := U.lenF ▸ ho
-  have hac0 := U.ac_zero_or o
-  refine ⟨g', hheld ▸ h.held, ⟨g', U', ?_⟩, ?_⟩
-  · exact
-      { X with
-        held := hheld ▸ X.held, slot0 := hslots ▸ X.slot0, slot1 := hslots ▸ X.slot1, slot2 := hslots ▸ X.slot2
-        slot3 := hslots ▸ X.slot3, obsvH := hobsvs ▸ X.obsvH, obsvS := hobsvs ▸ X.obsvS
-        cellG := by rw [hcells 7 (by omega) (by omega)]; exact X.cellG
-        cellB := by rw [hcells 8 (by omega) (by omega)]; exact X.cellB
-        cellN := by rw [hcells 9 (by omega) (by omega)]; exact X.cellN
-        caGe := fun c hc => hclen ▸ X.caGe c hc }
-  · refine h.conns.frame hcell0 (hcells 1 (by decide) (by omega)) ?_ ?_
-    · intro i hi
-      have hic : i < cobs.length := h.conns.lenC ▸ hi
-      exact hothers _ (fun e => GlobR.root_ne_cob g ho hic e.symm) (fun e => GlobR.fwd_ne_cob g hlf hic e.symm)
-    · intro i hi
-      have hm := rootAt_mem (l := cacs) (i := i) (by rw [X.lenCa, h.conns.lenC]; exact hi)
-      refine hcells _ (by have := (X.caGe _ hm).1; omega) (fun e => ?_)
-      rcases rootAt_zero_or_mem L.acs o with h0 | hmem
-      · have := (X.caGe _ hm).1; omega
-      · exact X.caDisj _ hm (e ▸ List.mem_append_right _ hmem)
+  refine ⟨hur'.1, hheld ▸ h.held, hur', ?_⟩
+  refine h.conns.frame hcell0 (hcells 1 (by decide) (by have := U.ac_zero_or o; omega)) ?_ ?_ hobsvs
+  · intro i hi
+    have hic : i < cobs.length := h.conns.lenC ▸ hi
+    exact hothers _ (fun e => GlobR.root_ne_cob g ho hic e.symm) (fun e => GlobR.fwd_ne_cob g hlf hic e.symm)
+  · intro i hi
+    have hm := rootAt_mem (l := cacs) (i := i) (by rw [X.lenCa, h.conns.lenC]; exact hi)
+    refine hcells _ (by have := (X.caGe _ hm).1; omega) (fun e => ?_)
+    rcases rootAt_zero_or_mem L.acs o with h0 | hmem
+    · have := (X.caGe _ hm).1; omega
+    · exact X.caDisj _ hm (e ▸ List.mem_append_right _ hmem)
+
+theorem URr.held_swap {L cobs cacs pend unst Hd Hd' cg sb cn w} {s : SubjM.State}
+    (hur : URr L cobs cacs pend unst Hd cg sb cn w s) :
+    URr L cobs cacs pend unst Hd' cg sb cn { w with held := Hd' } s := by
+  obtain ⟨g, U, X⟩ := hur
+  have g' : Glob (L.roots ++ L.fwds) cobs { w with held := Hd' } := ⟨g.status, g.nObs, g.rootsLt, g.cobsLt, g.nodup⟩
+  exact ⟨g', U.frameW rfl (Nat.le_refl _) (fun _ _ _ => rfl) (fun _ _ => rfl) (fun _ _ => rfl) (fun _ => rfl),
+    { X with held := rfl }⟩
 
 theorem RelRp.held_swap {L cobs cacs armed pend unst Hd Hd' w w' st} (h : RelRp L cobs cacs armed pend unst Hd w st)
     (hw : w' = { w with held := Hd' }) (hs : SlotReads Hd') : RelRp L cobs cacs armed pend unst Hd' w' st := by
@@ -65,8 +98,8 @@ theorem RelRp.held_swap {L cobs cacs armed pend unst Hd Hd' w w' st} (h : RelRp 
   exact ⟨g', hs, ⟨g', U.frameW rfl (Nat.le_refl _) (fun _ _ _ => rfl) (fun _ _ => rfl) (fun _ _ => rfl) (fun _ => rfl),
     { X with held := rfl }⟩, h.conns.frame rfl rfl (fun _ _ => rfl) (fun _ _ => rfl)⟩
 
-theorem stepR_unsubscribe (st : ConnM.State) (u : Nat) :
-    ConnM.step .replay .hot st (.unsubscribe u) =
+theorem stepR_unsubscribe (src : ConnM.Src) (st : ConnM.State) (u : Nat) :
+    ConnM.step .replay src st (.unsubscribe u) =
       ConnM.onUnsubscribe { st with sub := (unsubscribeN .replay st.sub u).1 } (unsubscribeN .replay st.sub u).2 := rfl
 
 /-- the record after the forwarder has been taken down too -/
@@ -104,10 +137,11 @@ theorem mapL_filter (L : LayR) (l : List (Nat × Nat)) (s : Nat) :
 /-- the inner Subject's map cell rewritten -/
 def setMapCell (w : World) (d : Data) : World := { w with cells := w.cells.set 2 d }
 
-theorem unsubscribeRp_spec {L cobs cacs armed w st} (h : RelRp L cobs cacs armed none none [] w st) (u : Nat) :
+/-- `Subscription::unsubscribe` of a test user, for any relation family -/
+theorem unsubscribeG_spec (F : RFam) {L cobs cacs armed w st} (h : F.Rel L cobs cacs armed none none [] w st) (u : Nat) :
     WP (.userUnsub u .done) w (fun w' => ∃ armed',
-      RelRp L cobs cacs armed' none none [] w' (ConnM.step .replay .hot st (.unsubscribe u))) := by
-  obtain ⟨g, U, X⟩ := h.ur
+      F.Rel L cobs cacs armed' none none [] w' (ConnM.step .replay F.src st (.unsubscribe u))) := by
+  obtain ⟨g, U, X⟩ := F.ur h
   rw [stepR_unsubscribe]
   by_cases hlive : u < L.roots.length ∧ (st.sub.obs u).hook = true
   · obtain ⟨hu, hk⟩ := hlive
@@ -153,11 +187,12 @@ theorem unsubscribeRp_spec {L cobs cacs armed w st} (h : RelRp L cobs cacs armed
       refine WP.done (WP.done ⟨armed, ?_⟩)
       rw [unsubR_unarmed _ _ hs hk har, ConnM.onUnsubscribe]
       simp only [reduceCtorEq, ↓reduceIte]
-      exact h.patchUser hu w1 _ st.sub.observers s1.1 (held1.trans X.held.symm) s1.2.1 s1.2.2 o1l (by rw [c1])
+      exact F.patchUser h hu w1 _ st.sub.observers s1.1 (held1.trans X.held.symm) s1.2.1 s1.2.2 o1l (by rw [c1])
         (by rw [c1]; exact U.cellO) (fun i _ _ => by rw [c1]) (by rw [c1]) (fun _ => by rw [c1, UU.ac (by simp)])
         (fun x => by cases x) u1l u1o ⟨true, by rw [u1], fun _ => rfl⟩ (fun i a _ => o1o i a) (fun i _ => l1 i)
         (by rw [o1r]; simp [rootOfL, cbN, cbE, cbC])
         (by rw [o1o _ hne, UU.fwd]; simp [fwdOfL]) (by rw [l1, UU.log]) hs (fun _ => rfl) U.keys U.regBound
+        (by rw [← hw1]; rfl)
     | true =>
       simp only [↓reduceIte]
       refine wp_cellWrite held1 ?_
@@ -170,11 +205,11 @@ theorem unsubscribeRp_spec {L cobs cacs armed w st} (h : RelRp L cobs cacs armed
       -- what is common to the two sub-cases: the world `w3` after the forwarder was cleared
       have common : ∀ (w3 : World), w3 = (w2.setObs (rootAt L.fwds u) fun x => { x.cleared with onUnsub := none }) →
           ∀ O', (∀ p ∈ O', p.1 ≤ st.sub.serial) → (∀ p ∈ O', p.2 < L.roots.length) → ∀ w4, w4 = { w3 with cells := w3.cells.set 2 (encMap (mapL L O')) } →
-          RelRp L cobs cacs armed none none [] w4
+          F.Rel L cobs cacs armed none none [] w4
             { st with sub := { st.sub with observers := O', obs := upd st.sub.obs u (downRec (st.sub.obs u)) } } := by
         intro w3 hw3 O' hk1 hk2 w4 hw4
         subst hw3 hw4
-        refine h.patchUser hu _ _ O' (by rw [← hw2]; exact s1.1) (held2.trans X.held.symm)
+        refine F.patchUser h hu _ _ O' (by rw [← hw2]; exact s1.1) (held2.trans X.held.symm)
           (by rw [← hw2]; exact s1.2.1) (by rw [← hw2]; exact s1.2.2)
           (by rw [← hw2]; simp [World.setObs, o1l])
           (by show (w2.cells.set _ _).length = _; rw [c2]; simp)
@@ -199,6 +234,7 @@ theorem unsubscribeRp_spec {L cobs cacs armed w st} (h : RelRp L cobs cacs armed
           (by show (w2.setObs _ _).obs[_]? = _
               rw [getElem?_setObs_same _ f2]; simp [fwdOfL, downRec, Obs.cleared])
           (by rw [← hw2]; show logOf w1 u = _; rw [l1, UU.log]; rfl) hs (fun _ => rfl) hk1 hk2
+          (by rw [← hw2, ← hw1]; rfl)
       cases hin : (st.sub.obs u).inHook with
       | none =>
         refine wp_obsUnsub_none f2 (by simp [fwdOfL, hin]) (WP.done (WP.done ⟨armed, ?_⟩))
@@ -236,19 +272,19 @@ theorem unsubscribeRp_spec {L cobs cacs armed w st} (h : RelRp L cobs cacs armed
         unfold slotTail
         show WP _ (setMapCell w3 (encMap (mapL L (st.sub.observers.filter fun p => p.1 != s0)))) _
         have hheld4 : (setMapCell w3 (encMap (mapL L (st.sub.observers.filter fun p => p.1 != s0)))).held = [] := held3
-        refine wp_lockedSlotCall_someG (SlotReads.of_nil hheld4) (show _ = some (some _) from hR.ur.2.2.slot3) ?_
-        have hmid := hR.held_swap (Hd' := [(LockId.slot 3, false)])
+        refine wp_lockedSlotCall_someG (SlotReads.of_nil hheld4) (show _ = some (some _) from (F.ur hR).2.2.slot3) ?_
+        have hmid := F.held_swap hR (Hd' := [(LockId.slot 3, false)])
           (w' := { setMapCell w3 (encMap (mapL L (st.sub.observers.filter fun p => p.1 != s0))) with
             held := (LockId.slot Sp.onUnsub, false) ::
               (setMapCell w3 (encMap (mapL L (st.sub.observers.filter fun p => p.1 != s0)))).held })
           (by rw [hheld4]; rfl) (SlotReads.nil.cons 3)
-        refine (onUnsubHookR_spec hmid _).conseq ?_
+        refine (F.onUnsubHook hmid _).conseq ?_
         rintro w5 ⟨armed', h5⟩
         refine wp_lockRel (WP.done (WP.done (WP.done ⟨armed', ?_⟩)))
         have hrel : w5.release (LockId.slot Sp.onUnsub) = { w5 with held := [] } :=
-          release_single w5 _ false h5.ur.2.2.held
+          release_single w5 _ false (F.ur h5).2.2.held
         rw [hrel, unsubR_armed_some _ _ _ hs hk har hin]
-        exact h5.held_swap rfl SlotReads.nil
+        exact F.held_swap h5 rfl SlotReads.nil
   · have hk : (st.sub.obs u).hook = false := by
       rcases Nat.lt_or_ge u L.roots.length with hlt | hge
       · cases hk : (st.sub.obs u).hook with
